@@ -134,16 +134,20 @@ def t_update(E):
     E.cover("dist.update.reached")
     E.prove("C01.Distribution.edit_update.wf", wf(E, d, new), also=["C02"])
     E.prove("C05.Distribution.edit_update.args", E.eq(E.method(new, "get_args"), a1))
-    E.prove("C05.Distribution.edit_update.choices", E.eq(E.method(new, "get_retval"), newval))
+    # (C35: `present` is the mask flag when the constraint value is a Mask: flag True == the unmasked constraint, flag False ==
+    # no constraint at all - new value, score, weight and backward constraint are all functions of `present` only)
+    E.prove("C05.Distribution.edit_update.choices", E.eq(E.method(new, "get_retval"), newval), also=["C35"])
     E.prove("C05.Distribution.edit_update.weight_is_score_change",
             E.eq(w, E.I.binop("Sub", E.method(new, "get_score"), E.method(old, "get_score"))), also=["C24"])
-    E.prove("C05.Distribution.edit_update.new_score", E.eq(E.method(new, "get_score"), lp(E, d, newval, a1)), also=["C24"])
+    E.prove("C05.Distribution.edit_update.new_score", E.eq(E.method(new, "get_score"), lp(E, d, newval, a1)), also=["C24", "C35"])
     # backward constraint: previous value exactly where overwritten
     bc = fld(E, bwd, "constraint")
     bv = E.method(bc, "get_value")
     b_present, b_val = _obs_value(E, bv)
     E.prove("C05.Distribution.edit_update.bwd_holds_previous_value_iff_overwritten",
-            E.And(b_present == present, E.Implies(present, E.eq(b_val, v0))))
+            E.And(b_present == present, E.Implies(present, E.eq(b_val, v0))), also=["C35"])
+    E.prove("C35.Distribution.edit_update.weight_is_density_ratio_of_the_value_selected_by_the_flag",
+            E.eq(w, SReal(TD.density(E.I, d, newval, a1) - TD.density(E.I, d, v0, a0))))
     # C08
     E.prove("C08.Distribution.edit_update.retdiff_primal_is_new_retval",
             E.eq(E.call(INC + ":Diff.tree_primal", rd), E.method(new, "get_retval")))
